@@ -552,8 +552,160 @@ def rule_e4(ctx) -> None:
                         ctx.finding("C07-E4", "postprocess.Validator.check:carbon-key", vf.loc(node), "reads %r from the carbon checker's result, which stores %r" % (k, prod_key))
 
 
+SIGNED_VECTOR_FUNCS = [
+    DECOMPOSE,
+    "synrbl.SynProcessor.rsmi_comparator.RSMIComparator.diff_dicts",
+    COMPARE,
+    "synrbl.SynProcessor.rsmi_both_side_process.BothSideReact.enforce_product_side",
+    BOTHSIDE_REV,
+    "synrbl.SynRuleImputer.synthetic_rule_matcher.SyntheticRuleMatcher.__init__",
+    "synrbl.SynRuleImputer.synthetic_rule_matcher.SyntheticRuleMatcher.apply_rule",
+]
+
+
+def counter_arithmetic(ctx, rule_id: str, quals) -> None:
+    """Composition vectors are signed (net charge Q, both-side differences).
+    collections.Counter arithmetic (+c, -c, a + b, a - b, a | b, a & b) and
+    .elements()/.subtract-then-plus idioms silently drop non-positive counts."""
+    prog = ctx.prog
+    seen = set()
+    work = []
+    for q in quals:
+        f = prog.func(q)
+        work.append(f)
+        for c in calls(f):
+            tgt = ctx.res.resolve_callee(c, f)
+            if tgt and tgt[0] == "func" and tgt[1] in prog.functions:
+                work.append(prog.functions[tgt[1]])
+    for f in work:
+        if f.qualname in seen:
+            continue
+        seen.add(f.qualname)
+        counters = set()
+        for n in own_nodes(f.node):
+            if isinstance(n, ast.Assign) and isinstance(n.value, ast.Call) and (dotted(n.value.func) or "").split(".")[-1] == "Counter":
+                for t in n.targets:
+                    if isinstance(t, ast.Name):
+                        counters.add(t.id)
+
+        def is_counter(e):
+            if isinstance(e, ast.Name) and e.id in counters:
+                return True
+            return isinstance(e, ast.Call) and (dotted(e.func) or "").split(".")[-1] == "Counter"
+
+        bad = None
+        for n in own_nodes(f.node):
+            if isinstance(n, ast.UnaryOp) and isinstance(n.op, (ast.UAdd, ast.USub)) and is_counter(n.operand):
+                bad = n
+            if isinstance(n, ast.BinOp) and isinstance(n.op, (ast.Add, ast.Sub, ast.BitOr, ast.BitAnd)) and (is_counter(n.left) or is_counter(n.right)):
+                bad = n
+            if isinstance(n, ast.AugAssign) and isinstance(n.op, (ast.Add, ast.Sub, ast.BitOr, ast.BitAnd)) and is_counter(n.target):
+                bad = n
+            if isinstance(n, ast.Call) and isinstance(n.func, ast.Attribute) and n.func.attr in ("elements", "most_common") and is_counter(n.func.value):
+                bad = n
+        ctx.instance(rule_id, "%s: no Counter arithmetic on a signed composition vector" % f.qualname.split("synrbl.", 1)[-1], f.loc(), ok=bad is None, nontrivial=bool(counters) or bad is not None)
+        if bad is not None:
+            ctx.finding(rule_id, "%s:counter-arithmetic" % f.qualname.split("synrbl.", 1)[-1], f.loc(bad), "`%s` uses collections.Counter arithmetic, which drops every non-positive entry: a negative net charge (or a negative difference) silently disappears from the composition vector" % unparse(bad)[:50])
+
+
+def rule_e5(ctx) -> None:
+    ctx.rule("C07-E5", "signed composition vectors never pass through Counter arithmetic", 5)
+    counter_arithmetic(ctx, "C07-E5", SIGNED_VECTOR_FUNCS)
+
+
+def _sum_over_components(ctx, f: Func, e: ast.AST, depth: int = 0):
+    """(ok, why) - e is sum(<count>(x) for x in <side>.split('.')) possibly through a helper"""
+    if isinstance(e, ast.Name):
+        a = assignments_to(f, e.id)
+        if len(a) == 1 and a[0][2] is None:
+            return _sum_over_components(ctx, f, a[0][1], depth)
+        return False, "%s has several definitions" % e.id
+    if not (isinstance(e, ast.Call) and isinstance(e.func, ast.Name) and e.func.id == "sum" and e.args):
+        return False, "not a sum(...)"
+    arg = e.args[0]
+    if isinstance(arg, (ast.GeneratorExp, ast.ListComp)):
+        g = arg.generators[0]
+        if g.ifs:
+            return False, "components are filtered before summing"
+        it = g.iter
+        if isinstance(it, ast.Call) and isinstance(it.func, ast.Attribute) and it.func.attr == "split" and it.args and const_str(it.args[0]) == ".":
+            return True, "sum over every component of split('.')"
+        return False, "summed collection %s is not the list of components" % unparse(it)[:40]
+    # sum(helper(side).values()) / sum(set(...)) ...
+    txt = unparse(arg)
+    if ".values()" in txt or "set(" in txt or isinstance(arg, (ast.DictComp, ast.SetComp)):
+        return False, "sum over %s: a mapping/set keyed by the molecule collapses molecules that occur several times" % txt[:50]
+    if isinstance(arg, ast.Call) and depth < 2:
+        tgt = ctx.res.resolve_callee(arg, f)
+        if tgt and tgt[0] == "func" and tgt[1] in ctx.prog.functions:
+            g = ctx.prog.functions[tgt[1]]
+            rets = [n for n in own_nodes(g.node) if isinstance(n, ast.Return) and n.value is not None]
+            for r in rets:
+                v = r.value
+                if isinstance(v, (ast.DictComp, ast.SetComp, ast.Dict, ast.Set)) or (isinstance(v, ast.Call) and unparse(v.func) in ("set", "dict", "frozenset")):
+                    return False, "%s returns a mapping/set of the components (repeated molecules collapse)" % g.name
+                if isinstance(v, (ast.ListComp, ast.GeneratorExp)):
+                    gg = v.generators[0]
+                    if not gg.ifs and isinstance(gg.iter, ast.Call) and isinstance(gg.iter.func, ast.Attribute) and gg.iter.func.attr == "split":
+                        return True, "sum over the list %s builds from every component" % g.name
+            return False, "cannot see a per-component list in %s" % g.name
+    return False, "unrecognised summand %s" % txt[:40]
+
+
+def rule_e6(ctx, rule_id: str = "C07-E6") -> None:
+    ctx.rule(rule_id, "the carbon label compares sums over every component (with multiplicity) of the two sides", 2)
+    f = ctx.prog.func(CARBON_PROC)
+    # the two quantities compared for the label
+    cmp_names = None
+    for n in own_nodes(f.node):
+        if isinstance(n, ast.If) and isinstance(n.test, ast.Compare) and isinstance(n.test.ops[0], ast.Eq) and isinstance(n.test.left, ast.Name) and isinstance(n.test.comparators[0], ast.Name):
+            a, b = n.test.left.id, n.test.comparators[0].id
+            if all(any("sum(" in unparse(v) for _, v, _i in assignments_to(f, x)) for x in (a, b)) and cmp_names is None:
+                cmp_names = (a, b)
+    ctx.require(cmp_names is not None, "process_reaction no longer compares two carbon totals for the 'balanced' label")
+    for nm in cmp_names:
+        ok, why = _sum_over_components(ctx, f, ast.Name(id=nm, ctx=ast.Load()))
+        ctx.instance(rule_id, "process_reaction: %s = %s" % (nm, why), f.loc(), ok=ok)
+        if not ok:
+            ctx.finding(rule_id, "CheckCarbonBalance.process_reaction:carbon-total:%s" % nm, f.loc(), "the carbon total %s is not a sum over every dot-separated component: %s" % (nm, why))
+
+
+def rule_e7(ctx) -> None:
+    """The carbon-count memo is keyed by the SMILES only although the count
+    also depends on the atom type: sound only while the memo lives on an
+    object whose atom type is fixed (fresh dict per CheckCarbonBalance)."""
+    ctx.rule("C07-E7", "the per-component count memo cannot outlive the object that fixes its other inputs", 2)
+    prog = ctx.prog
+    cls = prog.cls("synrbl.SynProcessor.check_carbon_balance.CheckCarbonBalance")
+    cnt = prog.func(cls.qualname + ".count_atoms")
+    # which parameters does the cached value depend on, which form the key?
+    memo = [p for p in cnt.params if "cache" in p]
+    ctx.require(memo, "count_atoms lost its memo parameter")
+    keyed = set()
+    for n in own_nodes(cnt.node):
+        if isinstance(n, ast.Subscript) and isinstance(n.value, ast.Name) and n.value.id == memo[0]:
+            keyed |= names_in_expr(n.slice)
+    other = [p for p in cnt.params if p not in keyed and p != memo[0]]
+    ctx.instance("C07-E7", "count_atoms memo keyed by %s; value also depends on %s" % (sorted(keyed), other), cnt.loc(), ok=True)
+    init = cls.methods.get("__init__")
+    fresh = init is not None and any(isinstance(n, ast.Assign) and any(isinstance(t, ast.Attribute) and t.attr == "smiles_cache" for t in n.targets) and isinstance(n.value, (ast.Dict, ast.Call)) and unparse(n.value) in ("{}", "dict()") for n in own_nodes(init.node))
+    class_level = "smiles_cache" in cls.class_attrs
+    module_level = any("cache" in k.lower() and isinstance(v, (ast.Dict, ast.Call)) for k, v in cls.module.assigns.items())
+    ok = (fresh and not class_level and not module_level) or not other
+    ctx.instance("C07-E7", "memo object: fresh per instance=%s, class level=%s, module level=%s" % (fresh, class_level, module_level), cls.module.relpath, ok=ok)
+    if not ok:
+        ctx.finding("C07-E7", "CheckCarbonBalance.smiles_cache:lifetime", cnt.loc(), "the count memo is keyed by %s only but the count depends on %s as well, and the memo is not a fresh dict per CheckCarbonBalance object (fresh=%s, class level=%s): counts taken for one atom type are served for another" % (sorted(keyed), other, fresh, class_level))
+
+
+def names_in_expr(e: ast.AST):
+    return {n.id for n in ast.walk(e) if isinstance(n, ast.Name)}
+
+
 def check(ctx) -> None:
     rule_e1(ctx)
     rule_e2(ctx)
     rule_e3(ctx)
     rule_e4(ctx)
+    rule_e5(ctx)
+    rule_e6(ctx)
+    rule_e7(ctx)
